@@ -2078,3 +2078,112 @@ Proof.
   split; [vm_compute; reflexivity|].
   split; vm_compute; reflexivity.
 Qed.
+
+(* ================================================================== *)
+(* A3 for the Chebyshev smoother over NON-COMMUTING values (WZ3).  AmgBlockCycleSym3Cheb.v: the sweep is consistent
+   whatever the coefficients are; it is hermitian for a hermitian matrix when the coefficients alpha_k, beta_k (k < degree)
+   are central and hermitian and the scaling entries are hermitian (cheby_coefs_herm) -- at static_matrix<T,b,b> these are
+   embedded real scalars resp. inverses of hermitian diagonal blocks; the condition is finite and checked by
+   cheby_coefs_hermb on the example hierarchy. *)
+From Amgcl Require Import AmgBlockCycleSym3Cheb.
+
+Theorem C02_chebyshev_hermitian_nc {S : Scalar} (Hnc : ncring_theory S) (Seqb : seqb_spec S)
+  (adj_add : forall a b : S, sadj (a + b) = sadj a + sadj b)
+  (adj_mul : forall a b : S, sadj (a * b) = sadj b * sadj a)
+  degree (lower higher : S) scale (A : crs S) :
+  wf A = true -> herm_mat (nrows A) A -> cheby_coefs_herm degree lower higher scale A ->
+  good5 (R5Cheby degree lower higher scale) A.
+Proof. exact (nc_cheby_triple Hnc Seqb adj_add adj_mul degree lower higher scale A). Qed.
+Print Assumptions C02_chebyshev_hermitian_nc.
+
+Theorem C02_apply_symmetric_blocks_chebyshev (S0 : Scalar) (b : nat) (Srt : Sring S0) (Seqb0 : seqb_spec S0) (Hb : 0 < b)
+  (sadj_add0 : forall x y : S0, sadj (x + y) = sadj x + sadj y)
+  (sadj_mul0 : forall x y : S0, sadj (x * y) = sadj x * sadj y)
+  (sadj_invol0 : forall x : S0, sadj (sadj x) = x)
+  degree (lower higher : BlockS S0 b) scale ce ml (sc : option (BlockS S0 b)) ts (M : crs (BlockS S0 b)) k nc pc :
+  scale_herm sc -> wf M = true -> herm_mat (nrows M) M -> ts_herm (nrows M) ts ->
+  (forall l, In l (amg_init ce false ml (coarse_op_of sc) ts M) ->
+             cheby_coefs_herm (S := BlockS S0 b) degree lower higher scale (ld_A l)) ->
+  let lvls := block_levels S0 b (R5Cheby degree lower higher scale) (amg_init ce false ml (coarse_op_of sc) ts M) in
+  forall scr1 scr2 f g x1 x2,
+  scratch_wf lvls scr1 -> scratch_wf lvls scr2 ->
+  length f = nrows M -> length g = nrows M -> length x1 = nrows M -> length x2 = nrows M ->
+  ipH (S := BlockS S0 b) (nrows M) (fst (apply k k nc (Datatypes.S pc) lvls scr1 f x1)) g =
+  ipH (S := BlockS S0 b) (nrows M) f (fst (apply k k nc (Datatypes.S pc) lvls scr2 g x2)).
+Proof.
+  exact (block_apply_herm_cheby S0 b Srt Seqb0 Hb sadj_add0 sadj_mul0 sadj_invol0 degree lower higher scale
+           ce ml sc ts M k nc pc).
+Qed.
+Print Assumptions C02_apply_symmetric_blocks_chebyshev.
+
+Theorem C02_apply_symmetric_blocks_chebyshev_Qc (b : nat) (Hb : 0 < b)
+  degree (lower higher : BlockS QcS b) scale ce ml (sc : option (BlockS QcS b)) ts (M : crs (BlockS QcS b)) k nc pc :
+  scale_herm sc -> wf M = true -> herm_mat (nrows M) M -> ts_herm (nrows M) ts ->
+  (forall l, In l (amg_init ce false ml (coarse_op_of sc) ts M) ->
+             cheby_coefs_hermb QcS b degree lower higher scale (ld_A l) = true) ->
+  let lvls := block_levels QcS b (R5Cheby degree lower higher scale) (amg_init ce false ml (coarse_op_of sc) ts M) in
+  forall scr1 scr2 f g x1 x2,
+  scratch_wf lvls scr1 -> scratch_wf lvls scr2 ->
+  length f = nrows M -> length g = nrows M -> length x1 = nrows M -> length x2 = nrows M ->
+  ipH (S := BlockS QcS b) (nrows M) (fst (apply k k nc (Datatypes.S pc) lvls scr1 f x1)) g =
+  ipH (S := BlockS QcS b) (nrows M) f (fst (apply k k nc (Datatypes.S pc) lvls scr2 g x2)).
+Proof.
+  intros Hsc WM SM Hts Hc.
+  exact (block_apply_herm_cheby QcS b QcS_ring QcS_eqb Hb (fun _ _ => eq_refl) (fun _ _ => eq_refl) (fun _ => eq_refl)
+           degree lower higher scale ce ml sc ts M k nc pc Hsc WM SM Hts
+           (fun l Hl => cheby_coefs_hermb_ok QcS b QcS_ring QcS_eqb Hb (fun _ _ => eq_refl) degree lower higher scale _ (Hc l Hl))).
+Qed.
+Print Assumptions C02_apply_symmetric_blocks_chebyshev_Qc.
+
+(* non-vacuity on the hierarchy of AmgBlockCycleExample.v (non-commuting 2 x 2 blocks): the coefficient condition holds on
+   both levels for degree 2, [rho/30, rho], with and without scaling (the inverted diagonal blocks are hermitian, the
+   recurrence coefficients are embedded rationals), and the identity for the V(1,1)-cycle, evaluated inside Coq *)
+Example C02_example_blocks_chebyshev_symmetric :
+  let lo := blk_embed QcS 2 (qc 1 30) in let hi := blk_embed QcS 2 (qc 1 1) in
+  let Bop := fun f => fst (apply 1 1 1 1 (block_levels QcS 2 (R5Cheby (S := B2) 2 lo hi false) exBH')
+                             (map (@fresh_scratch B2) exBH') f exBZ) in
+  scale_herm (S := B2) (Some exBhalf) /\ wf exBM = true /\ herm_mat (S := B2) (nrows exBM) exBM /\
+  ts_herm (S := B2) (nrows exBM) exBTs /\
+  forallb (fun l => cheby_coefs_hermb QcS 2 2 lo hi true (ld_A l) && cheby_coefs_hermb QcS 2 2 lo hi false (ld_A l)) exBH'
+    = true /\
+  seqb (s := B2) (ipH (S := B2) 3 (Bop exBF) exBG) (ipH (S := B2) 3 exBF (Bop exBG)) = true.
+Proof.
+  cbv zeta.
+  split; [apply (scale_herm_embed QcS 2 QcS_ring); reflexivity|].
+  split; [vm_compute; reflexivity|].
+  split; [apply (herm_matb_ok (BlockS_eqb QcS 2 QcS_eqb)); vm_compute; reflexivity|].
+  split; [apply (ts_hermb_ok (BlockS_eqb QcS 2 QcS_eqb)); vm_compute; reflexivity|].
+  split; vm_compute; reflexivity.
+Qed.
+
+(* FULL STATEMENT (unproved part), as it stands now (WZ3; supersedes the two FULL STATEMENT comments on block symmetry above).
+   Statement: for S0 a commutative ring with an additive, multiplicative, involutive conjugation, b > 0, M : crs (BlockS S0 b)
+   hermitian, transfer operators with R_l = adjoint P_l, scale_herm sc, k5 ANY of damped_jacobi, spai0, gauss_seidel, ilu0,
+   chebyshev, npre = npost = k, any ncycle, pre_cycles >= 1, direct_coarse true or false:
+     ipH (nrows M) (fst (apply k k nc pc lvls scr1 f x1)) g = ipH (nrows M) f (fst (apply k k nc pc lvls scr2 g x2)).
+   PROVED, commuting values (b = 1 read as the scalar development, dot form): every smoother with NO smoother hypothesis left --
+   Jacobi / SPAI-0 / Gauss-Seidel (earlier), chebyshev for every symmetric level matrix, every degree / lower / higher / scale,
+   over any commutative ring (C02_chebyshev_consistent_self_adjoint, C02_apply_symmetric_chebyshev[_smoother_coarse|_exact|_Qc]),
+   ilu0 over a field for every symmetric level matrix with strictly sorted rows, stored diagonal, symmetric pattern and no zero
+   pivot (C02_ilu0_factors_symmetric: L_ij = D_j U_ji; C02_ilu0_consistent_self_adjoint, C02_apply_symmetric_ilu0[_Qc]); exact
+   coarse solve symmetric (earlier).
+   PROVED, non-commuting block values, direct_coarse = false: Jacobi / SPAI-0 / Gauss-Seidel (earlier);
+   ilu0 with the side condition reduced from an operator statement to the ENTRYWISE factor relation L_ij = (D_j U_ji)^H,
+   D_j^H = D_j on the computed factors (C02_ilu_solve_hermitian_blocks, C02_ilu0_good5_from_factors,
+   C02_apply_symmetric_blocks_ilu0 with the boolean check ilu0_level_hermb); chebyshev with the side condition reduced to:
+   alpha_k, beta_k central and hermitian, scaling entries hermitian (C02_chebyshev_hermitian_nc,
+   C02_apply_symmetric_blocks_chebyshev[_Qc] with the boolean check cheby_coefs_hermb).  Both side conditions are finite and hold on
+   the example hierarchy of non-commuting 2 x 2 blocks (C02_example_blocks_ilu0_symmetric, C02_example_blocks_chebyshev_symmetric).
+   NOT proved: (a'') the factor relation L_ij = (D_j U_ji)^H for the ILU(0) factors of a hermitian BLOCK matrix (the induction of
+   AmgBlockCycleSym3IluFactors.v uses commutativity in the step  L_ik U_kj = D_k U_ki U_kj = L_jk U_ki;  over blocks it needs
+   (D_k U_ki)^H U_kj = ((D_k U_kj)^H U_ki)^H and an exactness theorem on the pattern for non-commuting values in the
+   form used here); that alpha_k, beta_k of cheby_coef are embedded scalars whenever lower, higher and the Gershgorin bound are
+   (closure of the embedded scalars under + * - sinv; true, not formalised; checked per instance by cheby_coefs_hermb).
+   (c) direct_coarse = true for block values: the hypothesis solve_symH (nrows A) (mk_solve_block S0 b A) of
+   C02_apply_symmetric_blocks_full is UNSATISFIABLE for b >= 2 (C02_block_coarse_solve_not_hermitian_on_general_blocks): it
+   quantifies over all block vectors while the solver reads / writes column 0 only.  On column vectors the solver is
+   self-adjoint (evaluated in C02_example_blocks_ilu0_symmetric).  The right statement restricts f, g (and all of hier_herm's
+   vector quantifiers) to column-shaped vectors, or projects the form on its (0,0) cell; this needs AmgBlockCycleSym2.v re-done
+   relative to a predicate on vectors preserved by smoothers, residual, restriction, prolongation (each of them is
+   right-linear, so it preserves  x = x E_00).  Not done.
+   On the implementation the full statement is CHECKED exactly for all five smoothers (tools/props/c02_block.py). *)
